@@ -163,7 +163,9 @@ theorem attach_good (w : World) (k : Nat) : Good w (attach w k) := by
 theorem evInbound_good {w : World} {p : World × Option Err} (hE : evInbound w = some p) : Good w p.1 := by
   unfold evInbound at hE
   split at hE
-  · cases hE; exact addConn_good _ _ _
+  · split at hE
+    · cases hE; exact addConn_good _ _ _
+    · cases hE; exact Good.of_eq rfl rfl rfl rfl rfl rfl
   · cases hE
 
 theorem evConnected_good {w : World} {k : Nat} {p : World × Option Err} (hE : evConnected w k = some p) :
@@ -417,9 +419,11 @@ theorem K_step {w : World} (h : K w) (e : Event) : K (step w e) := by
     | some p => exact K_good h (evInbound_good hE)
   | connect =>
     simp only [step]
-    cases hE : evConnect w with
-    | none => exact h
-    | some w' => exact K_evConnect h hE
+    split
+    · cases hE : evConnect w with
+      | none => exact h
+      | some w' => exact K_evConnect h hE
+    · exact h
   | connected k =>
     simp only [step]
     cases hE : evConnected w k with
@@ -433,6 +437,7 @@ theorem K_step {w : World} (h : K w) (e : Event) : K (step w e) := by
   | data i d => exact K_good h (evData_good w i d)
   | lost i => exact K_good h (evLost_good w i)
   | advance dt => exact K_evAdvance h dt
+  | setKey => exact K_good h (Good.of_eq rfl rfl rfl rfl rfl rfl)
 
 theorem K_init (cfg : Cfg) (l : Bool) (d : Nat) (r : List Nat) : K (initWorld cfg l d r) :=
   ⟨⟨by simp [initWorld], by simp [initWorld]⟩, by simp [P2, initWorld], by simp [initWorld]⟩
